@@ -207,12 +207,90 @@ func (c *canon) expr(e ast.Expr) ast.Expr {
 
 func (c *canon) block(b *ast.BlockStmt) *ast.BlockStmt {
 	out := &ast.BlockStmt{}
+	var add func(ns ast.Stmt)
+	add = func(ns ast.Stmt) {
+		// `if A { ...; return } else REST` reads the same as `if A { ...; return }` followed by REST
+		if is, ok := ns.(*ast.IfStmt); ok && is.Else != nil && is.Init == nil && endsInReturn(is.Body) {
+			rest := is.Else
+			is.Else = nil
+			out.List = append(out.List, is)
+			switch e := rest.(type) {
+			case *ast.BlockStmt:
+				for _, st := range e.List {
+					add(st)
+				}
+			default:
+				add(e)
+			}
+			return
+		}
+		out.List = append(out.List, ns)
+	}
 	for _, s := range b.List {
 		if ns := c.stmt(s); ns != nil {
-			out.List = append(out.List, ns)
+			add(ns)
 		}
 	}
 	return out
+}
+
+func endsInReturn(b *ast.BlockStmt) bool {
+	if b == nil || len(b.List) == 0 {
+		return false
+	}
+	_, ok := b.List[len(b.List)-1].(*ast.ReturnStmt)
+	return ok
+}
+
+// taglessAsIf spells a tagless switch (no init, single-condition clauses, no
+// fallthrough or break) as the if / else-if chain it abbreviates; nil otherwise.
+func taglessAsIf(sw *ast.SwitchStmt) *ast.IfStmt {
+	if sw.Tag != nil || sw.Init != nil || len(sw.Body.List) == 0 {
+		return nil
+	}
+	var deflt *ast.CaseClause
+	var clauses []*ast.CaseClause
+	plain := true
+	for _, cc := range sw.Body.List {
+		cl := cc.(*ast.CaseClause)
+		if cl.List == nil {
+			deflt = cl
+		} else if len(cl.List) == 1 {
+			clauses = append(clauses, cl)
+		} else {
+			return nil
+		}
+		for _, st := range cl.Body {
+			ast.Inspect(st, func(n ast.Node) bool {
+				switch y := n.(type) {
+				case *ast.BranchStmt:
+					if y.Tok == token.FALLTHROUGH || (y.Tok == token.BREAK && y.Label == nil) {
+						plain = false
+					}
+				case *ast.ForStmt, *ast.RangeStmt, *ast.SwitchStmt, *ast.TypeSwitchStmt, *ast.SelectStmt, *ast.FuncLit:
+					return false
+				}
+				return plain
+			})
+		}
+	}
+	if !plain || len(clauses) == 0 {
+		return nil
+	}
+	var chain, last *ast.IfStmt
+	for _, cl := range clauses {
+		is := &ast.IfStmt{Cond: cl.List[0], Body: &ast.BlockStmt{List: cl.Body}}
+		if chain == nil {
+			chain = is
+		} else {
+			last.Else = is
+		}
+		last = is
+	}
+	if deflt != nil {
+		last.Else = &ast.BlockStmt{List: deflt.Body}
+	}
+	return chain
 }
 
 func (c *canon) stmt(s ast.Stmt) ast.Stmt {
@@ -287,6 +365,9 @@ func (c *canon) stmt(s ast.Stmt) ast.Stmt {
 		}
 		return rs
 	case *ast.SwitchStmt:
+		if chain := taglessAsIf(x); chain != nil {
+			return c.stmt(chain)
+		}
 		ss := &ast.SwitchStmt{Body: &ast.BlockStmt{}}
 		if x.Init != nil {
 			ss.Init = c.stmt(x.Init)
